@@ -939,6 +939,7 @@ Qed.
 Lemma keeps_start_stage s id i k : KEEPS s (handle_start_stage s id i k).
 Proof.
   unfold handle_start_stage. destruct (get_stage s i) as [st|] eqn:Hs; [|constructor].
+  destruct (parent_not_started s st); [keeps_list tt|].
   set (r := evaluate_readiness _ _ _).
   assert (KEEPS s (if start_stage_late (s_status st) then ok []
                    else if start_stage_waits r (upstream s st) then ok []
